@@ -15,10 +15,19 @@ from .warp import Nodata, Resampling, _rio_reproject, resampling_s2rio
 def resolve_fill_value(dst_nodata, src_nodata, dtype):
     dtype = np.dtype(dtype)
 
+    def _cast(nodata):
+        if dtype.kind in "iu" and np.isfinite(nodata) and nodata != int(nodata):
+            # Fractional nodata on an integer raster: GDAL writes the nearest integer
+            # (halves away from zero) into pixels not reached by the source, plain
+            # ``dtype.type(..)`` truncates. Chunks without any source data must hold
+            # the same value as chunks/arrays that went through the warp.
+            nodata = int(nodata + 0.5) if nodata > 0 else int(nodata - 0.5)
+        return dtype.type(nodata)
+
     if dst_nodata is not None:
-        return dtype.type(dst_nodata)
+        return _cast(dst_nodata)
     if src_nodata is not None:
-        return dtype.type(src_nodata)
+        return _cast(src_nodata)
     if np.issubdtype(dtype, np.floating):
         return dtype.type("nan")
     return dtype.type(0)
